@@ -5,7 +5,7 @@ From Coq Require Import ZArith List String Ascii Bool Permutation.
 From Gen Require Import Elements TokenTables SmartsTables.
 From Model Require Import PyBase Graph PeriodicTable Tokenize Smarts Query SmartsFull.
 From Model Require Parser.
-From Proofs Require Import QueryProofs TokenizeProofs SmartsProofs SmartsRoundtrip SmartsParser SmartsFullProofs SmartsDenote SmartsDenoteText SmartsTree SmartsTreeText SmartsStereo SmartsRing SmartsRingText SmartsMolMatch SmartsPins SmartsNumbers SmartsDots SmartsDotsText.
+From Proofs Require Import QueryProofs TokenizeProofs SmartsProofs SmartsRoundtrip SmartsParser SmartsFullProofs SmartsDenote SmartsDenoteText SmartsTree SmartsTreeText SmartsStereo SmartsRing SmartsRingText SmartsMolMatch SmartsPins SmartsNumbers SmartsDots SmartsDotsText SmartsCanonical.
 Import ListNotations.
 Open Scope Z_scope.
 
@@ -668,3 +668,26 @@ Theorem C08_pattern_text_example :
       [mkSB 1 0 (mkQB [2] None) None; mkSB 3 2 (mkQB [1] None) None; mkSB 4 2 (mkQB [2; 3; 4] None) None]).
 Proof. exact pattern_text_example. Qed.
 Print Assumptions C08_pattern_text_example.
+
+Theorem C08_smarts_fn_pinned :
+  smarts_fn_tests =
+    ["not isinstance(data, str)"; "cx and cx[0].startswith('|') and cx[0].endswith('|')"; "int(i) >= len(parsed['atoms'])";
+     "isinstance(e, int)"; "isinstance(e, str)";
+     "n != m and n in stereo_bonds and (m in stereo_bonds) and stereo_bonds[n] and stereo_bonds[m] and (b == 2 if isinstance(b, int) else 2 in (b if isinstance(b, list) else b.order))";
+     "m not in stereo_bonds[n]"; "isinstance(b, (int, list))"]%string /\
+  smarts_qb_calls = ["QueryBond(b, stereo=s1 == s2)"]%string /\ smarts_raises = ["IncorrectSmarts"; "TypeError"]%string.
+Proof. exact smarts_fn_pinned. Qed.
+Print Assumptions C08_smarts_fn_pinned.
+
+(* ---------------------------------------------------------------------------------------------------------------- *)
+(* query_roundtrip composed with the denotation theorems: the spelling of EVERY canonical record is non-empty, bracket-free and
+   parsed back to the record, hence an admissible bracket atom of C08_chain_text / tree_text / ring_text / pattern_text
+   _denotation; and the one-atom SMARTS of a canonical record builds exactly that record's query atom *)
+Theorem C08_canonical_body_ok : forall p, canonical p -> body_ok (spell_query p) p.
+Proof. exact canonical_body_ok. Qed.
+Print Assumptions C08_canonical_body_ok.
+
+Theorem C08_canonical_single_atom : forall p q, canonical p -> build_atom p = Ok q ->
+  smarts_full (string_of_list_ascii (bracket (spell_query p))) = Ok ([atom_result p q], []).
+Proof. exact canonical_single_atom. Qed.
+Print Assumptions C08_canonical_single_atom.
